@@ -123,6 +123,8 @@ where
             // Rewind and truncate the file to the head
             guard.rewind().await?;
             guard.inner_mut().set_len(head.end).await?;
+            #[cfg(sos_verif)]
+            sos_core::verif_probe::hit("fs_vault_splice:after_truncate");
         } else {
             unreachable!("file splice head range always starts at zero");
         }
@@ -134,6 +136,9 @@ where
         if let Some(content) = content {
             guard.write_all(content).await?;
         }
+
+        #[cfg(sos_verif)]
+        sos_core::verif_probe::hit("fs_vault_splice:after_content");
 
         // Write out the end portion
         guard.write_all(&end).await?;
@@ -371,6 +376,8 @@ where
         let file =
             OpenOptions::new().write(true).open(&self.file_path).await?;
         let mut guard = file.lock_write().await.map_err(|e| e.error)?;
+        #[cfg(sos_verif)]
+        sos_core::verif_probe::hit("fs_vault_replace:before_write");
         guard.write_all(&buffer).await?;
         // The new vault may be smaller than the vault it replaces
         // so discard any bytes after the new content
